@@ -58,6 +58,12 @@ def handlers(pid, nq=6000, nt=120000):
 def universe(pid, nq=6000, nt=120000):
     return {"engine": "universe", "driver": "universe-" + pid, "bin": "h2.test", "quick": ["-n", str(nq)], "thorough": ["-n", str(nt)]}
 
+def cluster(pid, nq=150, nt=4000):
+    # exit code 17: the harness leaves its synctest bubble by os.Exit after flushing (parked proxy goroutines)
+    return {"engine": "cluster", "driver": "cluster-" + pid, "bin": "h2.test", "quick": ["-n", str(nq)], "thorough": ["-n", str(nt)], "ok_codes": [17], "timeout": 6000}
+
+H3_NOTE = "H3: 3 or 5 real servers with full run loops in one synctest bubble behind fault-injecting proxies; the recorded global history is judged by the executable Spec predicates of Spec/ClusterSpec.lean (no model stepping: search for a failing history + evidence that real histories satisfy the predicates the theorems are about)"
+
 SV_NOTE = "handlers modelled as write plans (Model/Server.lean): every durable write, failure ordinal and crash ordinal; tie = H2: the real server (skipStartup, FSM goroutine only, testing/synctest) and the model stepped through the same events, every observation compared (response, ordered durable writes, full durable image, volatile dump, FSM calls)"
 
 PROPS["C01"] = {
@@ -149,6 +155,33 @@ PROPS["C14"] = {
     "engines": [handlers("C14"), universe("C14", 3000, 60000)],
     "assumptions": [SV_NOTE],
     "level_note": "partial: `isolated server never increases its term` needs the candidate loop (preElectSelf tally) in the model; the handler half is proved.",
+}
+
+PROPS["C05"]["engines"].append(cluster("C05"))
+PROPS["C05"]["engines"].append(universe("C05"))
+for _p in ["C01", "C02", "C03", "C04"]:
+    PROPS[_p]["engines"] = PROPS[_p]["engines"] + [cluster(_p)]
+    PROPS[_p]["assumptions"] = PROPS[_p]["assumptions"] + [H3_NOTE]
+
+PROPS["C08"] = {
+    "lean_module": "RaftVerif.Props.C03",
+    "theorems": [
+        T("RP.ack_exact_forever", "cluster model: once a commit index has reached k with entry e there (the moment an Apply future resolves nil), every FSM is handed e at k in every continuation", "partial"),
+        T("RP.fsm_safety", "no two FSM records at one index differ", "partial"),
+    ],
+    "engines": [cluster("C08", 200, 5000)],
+    "assumptions": [H3_NOTE, "client calls carry unique payloads; Response() is compared with the payload the FSM returns for that very entry"],
+    "level_note": "partial: the leader loop (dispatchLogs, inflight futures, the commit loop, the batching FSM's response pairing) is not in the stepped model; those are covered by the H3 monitors only.",
+}
+
+PROPS["C12"] = {
+    "lean_module": "RaftVerif.Props.C12",
+    "theorems": [
+        T("RP.catchup_terminates", "for every leader log, every follower log (shorter, longer, divergent, empty), every nextIndex and batch size: within nextIndex + |L| AppendEntries rounds the follower holds the leader's log"),
+    ],
+    "engines": [cluster("C12", 200, 5000), universe("C12", 3000, 60000)],
+    "assumptions": [H3_NOTE, "the election-time bound is a statement about random timer draws and is measured (virtual time), not proved; convergence is checked 15 virtual seconds after the faults stop (replication back-off reaches 10.24 s)"],
+    "level_note": "partial: catch-up by AppendEntries is proved for the cut-down model; the snapshot branch and the election bound are covered by H3 only.",
 }
 
 HOOK_COMMITS = ["dfecdf5"]
